@@ -21,7 +21,8 @@ def plan(tier, seed):
     q = tier == 'quick'
     scs = []
     poses = [0, 1, 4] if q else [0, 1, 2, 3, 4, 5]
-    places = [P(0.97, 0.03, 0.97), P(0.03, 0.97, 0.5)] if q else [P(*c) for c in G.CORNERS] + [P(0.5, 0.5, 0.5), P(0.0, 0.0, 0.0)]
+    faces = [P(0.03, 0.5, 0.5), P(0.5, 0.03, 0.5), P(0.5, 0.5, 0.03), P(0.97, 0.5, 0.5), P(0.5, 0.97, 0.5), P(0.5, 0.5, 0.97)]      # one face crossed, everything else mid-cell
+    places = [P(0.97, 0.03, 0.97), P(0.03, 0.97, 0.5), faces[0], faces[4]] if q else [P(*c) for c in G.CORNERS] + [P(0.5, 0.5, 0.5), P(0.0, 0.0, 0.0)] + faces
     for ci in range(len(G.CELLS)):
         for pn in PATS:
             names = [p[0] for p in pairs(pn)]
@@ -38,8 +39,13 @@ def plan(tier, seed):
         for pn in (['CN', 'CNO', 'BF3'] if q else PATS[1:]):
             for nc in ((2,) if q else (2, 3)):
                 scs.append(dict(cell=ci, pat=pn, subpose=4, ncopies=nc, place=0, pair=[p[0] for p in pairs(pn)].index('grown (shared core + 2 atoms)'), replace_all=0, atol=0.05, fraction=1.0, noise=0))
+    # partial replacement: differently oriented copies, every sampled subset (the rotation used must be the sampled match's own)
+    for ci in range(len(G.CELLS)):
+        for pn in (['CN', 'CNO', 'CHHB'] if q else PATS[1:]):
+            for nc, f in ((3, 0.5), (3, 1.0 / 3), (4, 0.5)) if not q else ((3, 0.5), (3, 1.0 / 3)):
+                scs.append(dict(cell=ci, pat=pn, subpose=4, ncopies=nc, place=0, pair=[p[0] for p in pairs(pn)].index('grown (shared core + 2 atoms)'), replace_all=0, atol=0.05, fraction=f, noise=0))
     return dict(scenarios=scs, exhaustive=True, chunk=20,
-                menus=dict(cells=[c[0] for c in G.CELLS], patterns=PATS, pairs=INSERTING, replace_all=[False, True], joint_motions=3 if q else 6, copies=[1, 2, 3]),
+                menus=dict(cells=[c[0] for c in G.CELLS], patterns=PATS, pairs=INSERTING, fractions=[1.0, 0.5, 1.0 / 3], replace_all=[False, True], joint_motions=3 if q else 6, copies=[1, 2, 3]),
                 bounds=dict(draw_deviation_bound=draw_bound(tier)),
                 rule='one scenario per alphabet tuple, every draw answer and every joint motion inside; non-trivial = at least one atom inserted next to a cell boundary',
                 assumptions=['coverage over the finite menus', 'atoms inserted for a match are the new atoms in append order (C10/C11)'])
@@ -55,6 +61,10 @@ def check_positions(c, sc, answers, res, rec, out, case):
     V = lambda clause, sig, msg: out['violations'].append(viol(clause, sig, '%s [pair=%s, cell=%s, draw answers %r]' % (msg, c['pair'], G.CELLS[sc['cell']][0], tuple(answers)), sc, case=case, answers=list(answers)))
     cell = c['cell']; inv = np.linalg.inv(cell)
     idxs = [tuple(int(i) for i in t) for t in rec[0]]; mpos = np.asarray(rec[1]); quats = rec[2]
+    sel = selected_matches(answers, rec, sc.get('fraction', 1.0))
+    if sel is None:
+        V('no-result', 'sample', 'unexpected sampling'); return 0
+    idxs = [idxs[i] for i in sel]; mpos = mpos[sel] if len(sel) else mpos[:0]; quats = [quats[i] for i in sel]
     sh = {} if sc.get('replace_all') else shared_map(c['pel'], c['pp'], c['rel'], c['rpos'])
     ins_idx = [i for i in range(len(c['rel'])) if i not in sh]
     nins = len(ins_idx) * len(idxs)
@@ -105,7 +115,7 @@ def run(sc, ctx):
         if len(out['violations']) > 4:
             break
     # joint rigid motion of both patterns: same output structure modulo the lattice
-    if base is not None and not out['violations']:
+    if base is not None and not out['violations'] and sc.get('fraction', 1.0) >= 1.0:
         ex = explorer(ctx)
         inv = np.linalg.inv(c['cell'])
         eps0 = max([kabsch(c['pp'], np.asarray(x))[0] for x in exs[0][4][1]] + [0.0])
